@@ -16,15 +16,11 @@ def newValueJson : JVal → EM Val
   | .str s => pure (.str s none)
   | .arr items => do
     let cells ← newValueItems items
-    let h ← getHeap
-    let (a, h') := h.allocArr cells.toArray
-    setHeap h'
+    let a ← allocArrM cells.toArray
     return .arr a
   | .obj members => do
     let cells ← newValueMembers members
-    let h ← getHeap
-    let (o, h') := h.allocObj (cells.foldl (fun m kc => objInsert m kc.1 kc.2) [])
-    setHeap h'
+    let o ← allocObjM (cells.foldl (fun m kc => objInsert m kc.1 kc.2) [])
     return .obj o
 def newValueItems : List JVal → EM (List CellId)
   | [] => pure []
